@@ -115,6 +115,9 @@ class SafeLearner(Learner):
 
         no_len = lambda item: not hasattr(item,'__len__')
 
+        #an answer that is one of the offered action objects is that action whatever it looks like
+        if actions and any(std_pred is action for action in actions): return 'AX'
+
         #possible std_pred:
             #pmf, action, [action,prob], {'pmf':...}, {'action':...}, {'action_prob':...}
 
